@@ -795,6 +795,73 @@ def apply_edit(blob, e):
     return blob[:pos] + blob[pos + 1:] if op == 0 else blob[:pos] + bytes([c]) + blob[pos:]
 
 
+# ------------------------------------------------------------------ no sharing between parsed trees
+def elements(o, path=()):
+    """(path, element) of every value element reachable in a parsed tree (containers and scalars; keys excluded)"""
+    m = ED()
+    yield path, o
+    if isinstance(o, m.Dict):
+        for k in o:
+            yield from elements(o[k], path + (k.value,))
+    elif isinstance(o, m.List):
+        for i, it in enumerate(o):
+            yield from elements(it, path + (i,))
+
+
+def mutate_scalars(o):
+    """edit every mutable scalar of a parsed tree in place through its .value"""
+    m = ED()
+    n = 0
+    for _, e in elements(o):
+        if isinstance(e, m.Bool):
+            e.value = not e.value
+        elif isinstance(e, m.Integer):
+            e.value = e.value + 1000
+        elif isinstance(e, m.Float):
+            e.value = e.value + 17.25
+        elif isinstance(e, m.String):
+            e.value = e.value + "X"
+        elif isinstance(e, m.Tag):
+            e.value = b"(zz)"
+        else:
+            continue
+        n += 1
+    return n
+
+
+def isolation_check(ck, inp, parse, data, prefix=""):
+    """(a) the elements of one parsed tree are pairwise distinct objects (frozen Property values excepted);
+    (b) a tree edited in place does not reach into another tree parsed from the same bytes, nor into a later parse:
+    both still hold the original values and re-write the original text"""
+    m = ED()
+    try:
+        t1, t2 = parse(data), parse(data)
+        want, wantb = canon_obj(t2), t2.tobytes()
+    except Exception:
+        return  # reported elsewhere
+    seen = {}
+    for path, e in elements(t1):
+        if isinstance(e, m.Property):
+            continue
+        if id(e) in seen:
+            ck.fail(prefix + "parse-aliases-elements", inp, {"same object at": [list(map(str, seen[id(e)])), list(map(str, path))]},
+                    "distinct element objects in one parsed tree")
+            break
+        seen[id(e)] = path
+    if any(id(e) in seen for _, e in elements(t2) if not isinstance(e, m.Property)):
+        ck.fail(prefix + "parse-shares-elements-between-trees", inp, "an element object occurs in two parsed trees", "separate objects")
+    if mutate_scalars(t1) == 0:
+        return
+    try:
+        t3 = parse(data)
+        if canon_obj(t2) != want or t2.tobytes() != wantb:
+            ck.fail(prefix + "edit-reaches-other-tree", inp, canon_obj(t2)[:120], want[:120])
+        elif canon_obj(t3) != want or t3.tobytes() != wantb:
+            ck.fail(prefix + "edit-reaches-later-parse", inp, canon_obj(t3)[:120], want[:120])
+    except Exception as e:
+        ck.fail(prefix + "edit-breaks-later-parse", inp, repr(e), "same tree")
+
+
 # ------------------------------------------------------------------ generated trees embedded in a type layer
 class Hosts:
     """hosts for generated engine data: a hand-built TypeToolObjectSetting, the type-tool block of a fixture
@@ -890,6 +957,8 @@ def embedded_tree(ck, hosts, kvs, with_doc, all_hosts=True):
                 ck.fail("embedded-gen-block-fields-changed", inp, repr(tail_fields(back))[:300], repr(ref)[:300])
             elif not tiny and back.tobytes() != data:
                 ck.fail("embedded-gen-block-rewrite-differs", inp, len(back.tobytes()), len(data))
+            if host == "hand-built" and all_hosts:
+                isolation_check(ck, inp, lambda d_: hosts.T.frombytes(d_).text_data.get(b"EngineData").value, data, "embedded-gen-")
         if with_doc and hosts.doc_bytes is not None:
             from psd_tools import PSDImage
 
@@ -920,6 +989,10 @@ def embedded_tree(ck, hosts, kvs, with_doc, all_hosts=True):
                 ck.fail("embedded-gen-document-bytes-differ", inp, list(v2.tobytes()[:300]), list(vb[:300]))
             elif len(list(psd2.descendants())) != len(list(psd.descendants())):
                 ck.fail("embedded-gen-document-layers-changed", inp, len(list(psd2.descendants())), len(list(psd.descendants())))
+            # the exposed engine data of one opened document, edited in place, leaves another / a later opening alone
+            saved = f.getvalue()
+            isolation_check(ck, inp, lambda d_: [x for x in PSDImage.open(io.BytesIO(d_)).descendants() if x.kind == "type"][0]._engine_data,
+                            saved, "embedded-gen-document-")
     finally:
         logging.disable(logging.NOTSET)
 
@@ -959,6 +1032,9 @@ def oracle_tree(ck, kvs, ly):
     except Exception as e:
         ck.fail("rewrite-raises", inp, repr(e), "bytes")
         return b
+    ck._iso = getattr(ck, "_iso", 0) + 1
+    if ly == 0 or ck._iso % 4 == 0:
+        isolation_check(ck, inp, cls.frombytes, b)
     # writing what was read gives the same text; a non-zero decimal below 5e-9 is the one value whose text changes
     # (".0" is read as zero and written "0.0"): there the text must be stable from the second generation on
     if b2 != b and not has_tiny(("D", kvs)):
@@ -1031,7 +1107,7 @@ def _run(ck):
     ck.rule = ("trees: every string over the critical alphabet {a ( ) \\ CR U+015C U+5C5C U+2829 U+FEFF NUL U+295C} up to the "
                "tier's length, the same strings in every container position, int/decimal/bool/property/tag tables, "
                "hand-written container shapes (incl. the former F-C18-2 class), random trees up to the tier's depth (a quarter "
-               "with mixed lists), depth-forcing spines, random Unicode strings incl. astral; each x both layouts, the count returned by write() compared with the bytes written; each tree also "
+               "with mixed lists), depth-forcing spines, random Unicode strings incl. astral; each x both layouts, parsed trees checked for aliasing and for isolation under in-place edits, the count returned by write() compared with the bytes written; each tree also "
                "embedded as the engine data of a hand-built and a fixture type-tool block (all) and of a saved document (a sample); "
                "bytes: fixture engine-data blobs, a malformed corpus and byte-mutated written outputs; "
                "non-trivial = tree with >= 2 containers or a string whose UTF-16BE bytes contain ( ) or \\")
@@ -1313,6 +1389,10 @@ def replay(path):
             print("write() returned", build_top(t[1], ly).write(fp), "| bytes written", len(fp.getvalue()))
         except Exception as e:
             print("raises", repr(e))
+        class _Q:
+            def fail(self, kind, i, obs, exp, **k):
+                print("isolation:", kind, "| observed", str(obs)[:200], "| expected", str(exp)[:200])
+        isolation_check(_Q(), inp, cls.frombytes, build_top(t[1], ly).tobytes())
         if "embed" in inp:
             class _P:
                 def fail(self, kind, i, obs, exp, **k):
